@@ -105,6 +105,10 @@ int ext2fs_test_generic_bmap(ext2fs_generic_bitmap bitmap, __u64 arg)
 	int i = BMIDX(bitmap);
 	if (arg == GI.b)
 		return G.bit[i];
+#ifdef RSZ_BLOCK0_IN_USE
+	if (arg == 0 && (i == BM_NEW || i == BM_OLD))
+		return 1;	/* block 0 (boot sector / primary superblock) is never free */
+#endif
 	return rsz_ch() & 1;
 }
 int ext2fs_mark_generic_bmap(ext2fs_generic_bitmap bitmap, __u64 arg)
@@ -255,6 +259,9 @@ void ext2fs_block_alloc_stats2(ext2_filsys fs, blk64_t blk, int inuse)
 		if (!G.t_stats) G.t_stats = t;
 		if (fs == rsz_new_fs) G.bit[BM_NEW] = inuse > 0;	/* alloc_stats marks / unmarks fs->block_map */
 	}
+#ifdef RSZ_T_HOOK
+	RSZ_T_HOOK(fs, blk, inuse);	/* a unit's second ghost block */
+#endif
 }
 #endif
 
